@@ -41,7 +41,9 @@ EXTENDS Integers, FiniteSets, TLC
 
 CONSTANTS Tiles,          \* tile ids
           MetaOf,         \* [Tiles -> SUBSET Tiles]: tiles of the same meta tile (including the tile itself)
-          Flavours,       \* subset of {"tms", "wmts_kvp", "wmts_rest", "kml", "wmsc"}
+          Flavours,       \* subset of {"tms", "wmts_kvp", "wmts_rest", "kml", "wmsc", "wmsc2"}; "wmsc2": a WMS-C request
+                          \* (tiled=true) for TWO cached layers - the tile under test below a layer of transparent
+                          \* tiles that never change: a merged answer
           Backend,        \* "file" (mtime with sub-second part) | "sqlite" (last_modified in whole seconds)
           Path,           \* "single" | "meta" | "bulk": how the tile manager creates tiles
           CopyInfo, ResetStamp, BranchFlavours,
@@ -83,7 +85,10 @@ Stale(e)  == e # NoTile /\ (e.m \div 2) <= thr
 Fresh(t)  == cache[t] # NoTile /\ ~Stale(cache[t])
 Created(t) == IF Path = "single" THEN {t} ELSE MetaOf[t]
 
-HandlerKind(f) == IF f \in BranchFlavours THEN "branch"
+\* a merged answer is no stored tile: LayerMerger.merge hands on "cacheable or not", never the CacheInfo of one of its
+\* layers, so the WMS sends no validators (and nothing to match a conditional request against)
+HandlerKind(f) == IF f = "wmsc2" THEN "novalid"
+                  ELSE IF f \in BranchFlavours THEN "branch"
                   ELSE IF f = "wmsc" THEN "wmsc_both" ELSE "nobranch"
 
 (***************************************************************************)
@@ -92,11 +97,12 @@ HandlerKind(f) == IF f \in BranchFlavours THEN "branch"
 (***************************************************************************)
 Resp(f, t, h, info, bodyv, phase, lenient) ==
   LET kind   == HandlerKind(f)
-      useVal == kind # "branch" \/ info.cacheable
+      useVal == kind # "novalid" /\ (kind # "branch" \/ info.cacheable)
       etag   == IF useVal THEN Etag(info.ts, info.size) ELSE NONE_E
       ts     == IF useVal THEN info.ts ELSE -1
       lm     == IF ts = -1 THEN -1 ELSE ts \div 2
-      cc     == IF ~useVal THEN "nostore"
+      cc     == IF kind = "novalid" THEN (IF info.cacheable THEN "none" ELSE "nostore")
+                ELSE IF ~useVal THEN "nostore"
                 ELSE IF kind = "wmsc_both" /\ ~info.cacheable THEN "both" ELSE "public"
       nm     == \/ etag # NONE_E /\ h.inm # NOHDR /\ h.inm = etag
                 \/ ts # -1 /\ h.ims >= 0 /\ ts <= 2 * h.ims
@@ -127,8 +133,9 @@ GetCached(f, t, h) ==
   /\ LET info == [ts |-> cache[t].m, size |-> Disk(cache[t].s), cacheable |-> TRUE]
      IN \E r \in Respond(f, t, h, info, cache[t].v, "cached") :
         /\ resp' = r /\ issued' = issued \cup {r.etag}
-        /\ served' = [served EXCEPT ![t] = [etag |-> r.etag, lm |-> r.lm,
-                                            body |-> IF r.status = 200 THEN r.body ELSE served[t].body]]
+        /\ served' = IF f = "wmsc2" THEN served       \* (not an answer with the tile: says nothing about its validators)
+                      ELSE [served EXCEPT ![t] = [etag |-> r.etag, lm |-> r.lm,
+                                                  body |-> IF r.status = 200 THEN r.body ELSE served[t].body]]
   /\ UNCHANGED <<cache, prev, clock, thr, ver>>
 
 \* what the tile object carries before creation: metadata of the expired tile, if there is one
@@ -240,10 +247,13 @@ SimSpec == Init /\ [][SimNext]_vars
 
 IsGet == resp.act = "Get"
 Cur   == cache[resp.t]
+\* the answer is the tile (a merged answer - wmsc2 - is made of it and has no validators of its own: never 304, the body
+\* current, no-store on errors; the clauses about the validators of the tile do not speak about it)
+IsTile == IsGet /\ resp.f # "wmsc2"
 
 \* repeated requests served from the cache receive identical validators and bodies until the tile is rewritten
 StableValidators ==
-  (IsGet /\ resp.phase = "cached" /\ resp.prevserved # NoServed) =>
+  (IsTile /\ resp.phase = "cached" /\ resp.prevserved # NoServed) =>
      /\ resp.etag = resp.prevserved.etag /\ resp.lm = resp.prevserved.lm
      /\ (resp.status = 200 /\ resp.prevserved.body >= 0) => resp.body = resp.prevserved.body
 
@@ -253,7 +263,7 @@ BodyCurrent ==
 
 \* a request with the current ETag is answered 304 without body
 INMCurrent ==
-  (IsGet /\ resp.phase = "cached" /\ resp.h.inm = Etag(Cur.m, Disk(Cur.s))) => resp.status = 304 /\ resp.body = -1
+  (IsTile /\ resp.phase = "cached" /\ resp.h.inm = Etag(Cur.m, Disk(Cur.s))) => resp.status = 304 /\ resp.body = -1
 
 \* 304 only if the client's validator matches the tile as stored now
 Sound304 ==
@@ -269,18 +279,21 @@ Uncacheable ==
   (IsGet /\ resp.phase = "error") => resp.cc = "nostore"
 
 StatusOK == IsGet => resp.status \in {200, 304}
+\* a merged answer is never 304 and names no validators
+MergedPlain == (IsGet /\ resp.f = "wmsc2") => (resp.status = 200 /\ resp.etag = NONE_E /\ resp.lm = -1)
 
 \* the exhaustive configurations explore the store (VIEW core) and check the property on every
 \* transition (TLC evaluates action properties for all successors, also those that reach a known state)
 \* (issued does not influence Next, resp is a function of the transition)
 core == <<cache, prev, clock, thr, ver, served>>
-Property == StatusOK /\ StableValidators /\ BodyCurrent /\ INMCurrent /\ Sound304 /\ Uncacheable
+Property == StatusOK /\ StableValidators /\ BodyCurrent /\ INMCurrent /\ Sound304 /\ Uncacheable /\ MergedPlain
 AlwaysStatusOK         == [][StatusOK']_vars
 AlwaysStableValidators == [][StableValidators']_vars
 AlwaysBodyCurrent      == [][BodyCurrent']_vars
 AlwaysINMCurrent       == [][INMCurrent']_vars
 AlwaysSound304         == [][Sound304']_vars
 AlwaysUncacheable      == [][Uncacheable']_vars
+AlwaysMergedPlain      == [][MergedPlain']_vars
 
 TypeOK ==
   /\ clock \in 2 .. MaxClock /\ thr \in 0 .. (MaxClock \div 2)
